@@ -103,41 +103,46 @@ Theorem C17_group_bbox : forall kids x y cx cy,
 Proof. exact child_extents_bbox. Qed.
 Print Assumptions C17_group_bbox.
 
-(** Adding a member at any path (any depth) with recalculation: whatever the tree
-    looked like before, afterwards every group on the path has off, ext, chOff, chExt
-    equal to the bounding box of its members. *)
+(** Adding a member at any path (any depth): whatever the tree looked like before,
+    afterwards every group on the path has off, ext, chOff, chExt equal to the bounding
+    box of its members. *)
 Theorem C17_group_path : forall p new s s',
-  add_in p new true s = Ok s' -> on_path_okb p s' = true.
+  add_in p new s = Ok s' -> on_path_okb p s' = true.
 Proof. exact add_in_path_ok. Qed.
 Print Assumptions C17_group_path.
 
 (** What does not change: off the path every member is the same term, positions of
     members are kept, the new member is the last one of the receiving group. *)
-Theorem C17_group_frame : forall p new rc s s',
-  add_in p new rc s = Ok s' -> frame_ok p new s s'.
+Theorem C17_group_frame : forall p new s s',
+  add_in p new s = Ok s' -> frame_ok p new s s'.
 Proof. exact add_in_frame. Qed.
 Print Assumptions C17_group_frame.
 
 (** Recursive consistency (every group in the tree has the bounding box of its members,
-    an empty group has zeros) is preserved by an addition that recalculates. *)
+    an empty group has zeros) is preserved by every addition, whatever is added. *)
 Theorem C17_group : forall p new s s',
   consistentb s = true -> consistentb new = true ->
-  add_in p new true s = Ok s' -> consistentb s' = true.
+  add_in p new s = Ok s' -> consistentb s' = true.
 Proof. exact add_in_consistent. Qed.
 Print Assumptions C17_group.
 
-(** Histories on a slide: every addition either recalculates or (as add_group_shape and
-    convert_to_shape do) does not but leaves the bounding box of the receiving group as
-    it was (always so on the slide itself and for an empty group put into an empty group). *)
+(** Histories on a slide, no side condition: after any sequence of additions of any
+    kind (a shape with an xfrm, or a new empty group) at any paths, every group on the
+    slide, at every depth, is the bounding box of its members. *)
 Theorem C17_group_history : forall ops sl sl',
-  forallb consistentb sl = true -> run_safe sl ops -> slide_run sl ops = Ok sl' ->
+  forallb consistentb sl = true -> slide_run sl ops = Ok sl' ->
   forallb consistentb sl' = true.
 Proof. exact slide_history_consistent. Qed.
 Print Assumptions C17_group_history.
 
-Theorem C17_group_slide_step : forall p new rc sl sl',
-  slide_add p new rc sl = Ok sl' ->
-  slide_frame_ok p new sl sl' /\ (rc = true -> slide_path_okb p sl' = true).
+Theorem C17_group_history_from_empty : forall ops sl',
+  slide_run [] ops = Ok sl' -> forallb consistentb sl' = true.
+Proof. exact slide_history_from_empty. Qed.
+Print Assumptions C17_group_history_from_empty.
+
+Theorem C17_group_slide_step : forall p new sl sl',
+  slide_add p new sl = Ok sl' ->
+  slide_frame_ok p new sl sl' /\ slide_path_okb p sl' = true.
 Proof. exact slide_add_spec. Qed.
 Print Assumptions C17_group_slide_step.
 
@@ -147,27 +152,29 @@ Example C17_group_nonvacuous_run :
           [Grp (mkG (-100) (-7) 110 77 (-100) (-7) 110 77)
              [Grp (mkG (-100) (-7) 110 77 (-100) (-7) 110 77)
                 [Grp (mkG (-100) 50 10 20 (-100) 50 10 20) [Leaf (-100) 50 10 20];
-                 Leaf 7 (-7) 3 3]];
+                 Leaf 7 (-7) 3 3; Grp gxf0 []]];
            Leaf 1000 1000 5 5];
         Leaf 1 2 3 4].
 Proof. exact nest_example. Qed.
-Example C17_group_nonvacuous_safe : run_safe [] nest_ops.
-Proof. exact nest_example_safe. Qed.
 
-(** Refuted: the full statement (after ANY addition every group is the bounding box of
-    its members) fails for the two additions the code performs without recalculating:
-    add_group_shape() inside a group, and a freeform placed into a group. *)
-Theorem C17_group_add_empty_group_refuted :
-  exists s s', consistentb s = true /\ consistentb (Grp gxf0 []) = true /\
-               add_in [] (Grp gxf0 []) false s = Ok s' /\ consistentb s' <> true.
-Proof. exact add_empty_group_breaks. Qed.
-Print Assumptions C17_group_add_empty_group_refuted.
+(** Regression witnesses of two repaired defects (add_group_shape() inside a group and a
+    freeform placed into a group used to insert the member without recalculating,
+    [add_stale]): on them the old behaviour leaves the group stale, the present
+    behaviour gives the bounding box. *)
+Example C17_group_regression_empty_group :
+  consistentb witness_group = true /\
+  (exists s', add_stale [] (Grp gxf0 []) witness_group = Ok s' /\ consistentb s' = false) /\
+  add_in [] (Grp gxf0 []) witness_group
+  = Ok (Grp (mkG 0 0 150 150 0 0 150 150) [Leaf 100 100 50 50; Grp gxf0 []]) /\
+  consistentb (Grp (mkG 0 0 150 150 0 0 150 150) [Leaf 100 100 50 50; Grp gxf0 []]) = true.
+Proof. exact regression_empty_group. Qed.
 
-Theorem C17_group_add_freeform_refuted :
-  exists s new s', consistentb s = true /\ consistentb new = true /\
-                   add_in [] new false s = Ok s' /\ consistentb s' <> true.
-Proof. exact add_leaf_norecalc_breaks. Qed.
-Print Assumptions C17_group_add_freeform_refuted.
+Example C17_group_regression_freeform :
+  (exists s', add_stale [] (Leaf 10 10 500 500) witness_group = Ok s' /\ consistentb s' = false) /\
+  add_in [] (Leaf 10 10 500 500) witness_group
+  = Ok (Grp (mkG 10 10 500 500 10 10 500 500) [Leaf 100 100 50 50; Leaf 10 10 500 500]) /\
+  consistentb (Grp (mkG 10 10 500 500 10 10 500 500) [Leaf 100 100 50 50; Leaf 10 10 500 500]) = true.
+Proof. exact regression_freeform. Qed.
 
 (* ------------------------------------------------------------------ freeform *)
 
